@@ -66,6 +66,8 @@ def check(chk: Check) -> None:
     from ..freeze import freeze
 
     for res, job in zip(results, jobs):
+        if res is None:
+            continue
         chk.functions.update(res["funcs"])
         jb = res["job"]
         cfg = f"{jb['integ']} physical={jb['physical']} preset={jb.get('preset')} delimited={jb.get('delimited')} frame_size={jb.get('frame_size')} logical={jb.get('logical')} via={jb.get('via')} ns={job.get('ns_on')}"
